@@ -420,12 +420,13 @@ impl<'a, 'b> Add<&'b Substance> for &'a Substance {
                         {
                             return None;
                         }
+                        // Amounts of different dimensionality have no sum.
+                        let output = (&(&self.amount * &prop1.output).unwrap()
+                            + &(&other.amount * &prop2.output).unwrap())?;
                         Some((
                             k.clone(),
                             Property {
-                                output: (&(&self.amount * &prop1.output).unwrap()
-                                    + &(&other.amount * &prop2.output).unwrap())
-                                    .expect("Add"),
+                                output,
                                 input_name: prop1.input_name.clone(),
                                 input: mol,
                                 output_name: prop1.output_name.clone(),
